@@ -400,6 +400,24 @@ def lemma_git_conformance(M):
                 dag.g, dag.M, dag._reach = cg, M, {}
                 dag.p = {k: z3.BoolVal(v) for k, v in par.items()}
                 real = Git(pathlib.Path(d))
+                # HEAD as Conductor's wrapper reports it, for the ways a repository can store it: a branch with a loose ref
+                # file, the same branch after `git pack-refs` / `git gc` (no loose file), a detached HEAD
+                tip = hashes[M - 1]
+                git("update-ref", "refs/heads/main", tip)
+                git("symbolic-ref", "HEAD", "refs/heads/main")
+                for how in ("loose ref", "packed refs", "detached HEAD"):
+                    if how == "packed refs":
+                        git("pack-refs", "--all", "--prune")
+                    if how == "detached HEAD":
+                        git("update-ref", "--no-deref", "HEAD", hashes[0])
+                    out["obligations"] += 1
+                    cur = real.current_commit()
+                    want_ = hashes[0] if how == "detached HEAD" else tip
+                    if cur is not None and cur.hash == want_ and real.is_used() and real.rev_parse("HEAD") == want_:
+                        out["discharged"] += 1
+                    else:
+                        out["violations"].append(("select:head-misread", "HEAD stored as %s: conductor.utils.git reports %r, git says %s" % (
+                            how, cur.hash if cur else None, want_), how))
                 # annotated tags: the emulator's three assumptions about them
                 for a in range(M):
                     git("tag", "-a", "tag%d" % a, "-m", "t", hashes[a])
@@ -502,6 +520,55 @@ def history_fn(g):
         src.cleanup()
 
 
+def legacy_fn(g):
+    """An index still in the on-disk format of Conductor <= 0.4.0 (format 1: a commit column that was never reliable). The
+    upgrade records its versions without a commit, so they are reused as commit-less versions: the newest one."""
+    import argparse
+    import sqlite3
+    import conductor.cli.where as cli_where
+    import conductor.cli.run as cli_run
+    commit = ("unknown", "f" * 40, H(0), H(1))[g.choose("commit_text_in_the_old_row", 4)]
+    mode = ("dag", "no-repo")[g.choose("gitmode", 2)]
+    dag = Dag(g, 2)
+    proj = hrun.Project(config="")
+    try:
+        proj.write("COND", "run_experiment(name='e', run='true')\nrun_command(name='d', run='true', deps=[':e'])\n")
+        proj.out.mkdir()
+        conn = sqlite3.connect(str(proj.out / "version_index.sqlite"))
+        conn.execute("CREATE TABLE version_index (task_identifier TEXT NOT NULL, timestamp INTEGER NOT NULL, git_commit TEXT NOT NULL, "
+                     "PRIMARY KEY (task_identifier, timestamp))")
+        conn.execute("PRAGMA user_version = 1")
+        for ts in (10, 12):
+            conn.execute("INSERT INTO version_index VALUES (?, ?, ?)", ("//:e", ts, commit))
+            (proj.out / ("e.task.%d" % ts)).mkdir()
+            (proj.out / ("e.task.%d" % ts) / "result.txt").write_text("old")
+        conn.commit()
+        conn.close()
+        D = "format-1 index with //:e versions 10 and 12, commit column %r; git: %s, HEAD=c0" % (commit[:8], mode)
+        first = g.choose("first_command", 2)
+        for step in ((0, 1) if first == 0 else (1, 0)):
+            kern = fakeos.Kernel(GitSched(g, mode, dag, 0, False), clock=fakeos.Clock())
+            if step == 0:
+                r = hrun.invoke(cli_where.main, argparse.Namespace(task_identifier="//:e", project=False, non_existent_ok=False, debug=False), str(proj.root), kern)
+                if isinstance(r.status, str):
+                    g.require(False, "select:crash:" + r.status[4:], "%s; %s" % (r.exc, D))
+                m_ = re.search(r"e\.task\.(\d+)\s*$", r.out)
+                got = int(m_.group(1)) if (m_ and r.status == 0) else None
+                g.require(got == 12, "select:where-reports-wrong-version", "cond where selects %s (status %r), expected the newest commit-less version 12; %s" % (got, r.status, D))
+            else:
+                r = hrun.invoke(cli_run.main, hrun.run_ns(task_identifier="//:d"), str(proj.root), kern)
+                if isinstance(r.status, str):
+                    g.require(False, "select:crash:" + r.status[4:], "%s; %s" % (r.exc, D))
+                names = [p.name for p in kern.tasks()]
+                deps = [p.env.get("COND_DEPS", "") for p in kern.tasks() if p.name == "d"]
+                g.require(r.status == 0 and names == ["d"] and deps[0].endswith("e.task.12"), "select:wrong-run-decision",
+                          "cond run //:d spawned %s with COND_DEPS=%s; %s" % (names, deps, D))
+        g.goal("index upgraded from format 1")
+        return {"nontrivial": True, "sample": {"case": D}}
+    finally:
+        proj.cleanup()
+
+
 def bulk_fn(g):
     """More versions than any batch size: the closest one may be the 65th record."""
     import argparse
@@ -555,6 +622,8 @@ def spaces(tier):
     sp.append(Space("select-restore-select", history_fn, "chain c0 <- c1 <- c2 = HEAD, version at c0 recorded; {where, cached run, nothing}; restore of an "
                     "archive with a version made at HEAD or at c1; where / run / run --at-least c1 again", depth=8,
                     goals=["selection asked again after a restore"]))
+    sp.append(Space("format-1-index", legacy_fn, "an index in format 1 (two versions; commit column 'unknown' / an unknown hash / c0 / c1), git in use or "
+                    "not, where and run in either order", depth=5, goals=["index upgraded from format 1"]))
     sp.append(Space("bulk-70-versions", bulk_fn, "70 recorded versions: 69 made at an older commit and one at HEAD, the one at HEAD recorded "
                     "first / 64th / 65th / last", depth=3, goals=["more than 64 recorded versions of one task"]))
     if tier == "thorough":
